@@ -1,0 +1,5 @@
+//go:build !verif
+
+package gtree
+
+func verifPoint(string) {}
